@@ -732,7 +732,11 @@ def run_pm_scenario(np, ops):
             e["s"] = used_sock(mark) if ok else 0
             e["p"] = state.used.get(me, 0)
 
+        failed = set()      # responses / handles that never came into being: later uses are skipped
         for o in ops:
+            if (o["op"] in ("fin", "dropr") and o.get("ref") in failed) or \
+                    (o["op"] == "hsend" and o.get("h") in failed) or (o["op"] == "droph" and o.get("ref") in failed):
+                continue
             e = dict(PM_EV_DEFAULT)
             e.update({"op": o["op"], "k": o.get("k", NONE), "mode": o.get("mode", NONE), "ref": o.get("ref", 0),
                       "h": o.get("h", 0)})
@@ -781,6 +785,8 @@ def run_pm_scenario(np, ops):
                 e["live"] = state.live()
             else:
                 raise tlc.MachineryError("unknown scenario op " + op)
+            if op in ("req", "goc", "hsend") and not e["ok"]:
+                failed.add(o["ref"])
             e["cached"], e["n"] = _cached(pm)
             ev.append(e)
         # epilogue: let go of everything; nothing may stay open
